@@ -234,7 +234,13 @@ def spec_stream(ctx, out, rng, budget):
     for i in range(4 * budget):
         kind = kinds[i % 4]
         name = nuc[(i // 4 + ctx.seed) % len(nuc)]
-        run_history(ctx, rand_history_problem(rng, name, kind), rng, out)
+        spec = rand_history_problem(rng, name, kind)
+        try:
+            with U.deadline(120):
+                run_history(ctx, spec, rng, out)
+        except TimeoutError as e:
+            add_failure(out, "spec", "a history of read-only calls on one likelihood function does not terminate", dict(_slim(spec), check="history"),
+                        "results", str(e), sig=f"history:timeout:{kind}")
 
 
 def recheck(ctx, inp, out):
